@@ -42,6 +42,24 @@ def specC03 (inp impl : Json) : String :=
         else if got != want then s!"fail:call arguments {got} are not the params struct's fields in order {want}"
         else "ok"
 
+mutual
+/-- every ParamRef anywhere in the tree (walked or not): (location, number) -/
+partial def allParamRefs : Node → List (Int × Nat)
+  | .nd k fs =>
+    (if k == "ParamRef" then [((Node.nd k fs).get "Location" |>.intVal, (Node.nd k fs).get "Number" |>.natVal)] else []) ++
+      fs.flatMap (fun f => allParamRefs f.2.2)
+  | .list is => is.flatMap allParamRefs
+  | _ => []
+end
+
+/-- MySQL: the conversion numbers the `?` marks; the k-th `?` in TEXT order must be parameter k -/
+def mysqlTextOrder (inp : Json) : String :=
+  let refs := (allParamRefs (readNode (jobj inp "ast"))).eraseDups
+  let byLoc := refs.mergeSort (fun a b => a.1 ≤ b.1)
+  let nums := byLoc.map (·.2)
+  if nums == (List.range nums.length).map (· + 1) then "ok"
+  else s!"fail:`?` marks in text order carry parameter numbers {nums}: the k-th argument does not feed the k-th `?`"
+
 def c03 (kind : String) (inp impl : Json) : Verdict :=
   match kind with
   | "analysis" =>
@@ -49,8 +67,9 @@ def c03 (kind : String) (inp impl : Json) : Verdict :=
     if !jhas inp "ast" then { compare := false, frag := "out:unparsed", specImpl := "na" } else
     let run := runAnalysis inp
     let specv := if jstr impl "err" != "" then "na" else specC03 inp impl
+    let specv := if specv == "ok" && jstr inp "engine" == "mysql" then mysqlTextOrder inp else specv
     { model := run.model, compare := !walkPanic, frag := if walkPanic then "out:walk-panic" else "in",
-      specImpl := specv, trig := run.trig }
+      specImpl := specv, trig := run.trig, implProj := some (implProjection impl) }
   | _ => { compare := false, frag := "e2e" }
 
 end Sqlc.Drv
